@@ -184,6 +184,8 @@ def run(ctx, ck):
     ck.rule('R-WR.load-numbering', 'load numbers written refer to the reader numbering')
 
     mainf = m.func('mininec.main')
+    if sum(1 for x_ in ast.walk(mainf.node) if isinstance(x_, ast.For) and 'args.' in norm(x_.iter)) < 5:
+        mainf = ctx.flat('mininec.main')        # (the options are consumed in step functions of main: judged inlined)
     opts = registered_options(mainf)
     by_dest = analyse_reader(m, mainf, opts)
     # the reader model from the symbolic walk of main (exact per field count) takes precedence over
